@@ -33,8 +33,8 @@ fn run(wgsl: &str, params: &Params) -> R {
             let display = e.to_string();
             let diag = std::panic::catch_unwind(std::panic::AssertUnwindSafe(|| {
                 let a = e.emit_to_string(wgsl);
-                let _ = e.emit_to_string_with_path(wgsl, "some/path.wgsl");
-                a
+                let b = e.emit_to_string_with_path(wgsl, "some/path.wgsl");
+                format!("{a}\n--- with path ---\n{b}")
             }))
             .map_err(panic_message);
             R::Err(kind, display, diag)
@@ -241,7 +241,8 @@ impl Property for C17 {
         };
         match parsed {
             Err(e) => {
-                let want_diag = match std::panic::catch_unwind(std::panic::AssertUnwindSafe(|| e.emit_to_string(src))) {
+                // naga's own rendering, without and with a path: the library must hand source and path through unchanged
+                let want_diag = match std::panic::catch_unwind(std::panic::AssertUnwindSafe(|| format!("{}\n--- with path ---\n{}", e.emit_to_string(src), e.emit_to_string_with_path(src, "some/path.wgsl")))) {
                     Ok(d) => d,
                     Err(p) => return Outcome::skip(format!("naga's own diagnostic rendering panics: {}", panic_message(p))),
                 };
@@ -260,7 +261,7 @@ impl Property for C17 {
                 };
                 match validated {
                     Err(e) => {
-                        let want_diag = match std::panic::catch_unwind(std::panic::AssertUnwindSafe(|| e.emit_to_string(src))) {
+                        let want_diag = match std::panic::catch_unwind(std::panic::AssertUnwindSafe(|| format!("{}\n--- with path ---\n{}", e.emit_to_string(src), e.emit_to_string_with_path(src, "some/path.wgsl")))) {
                             Ok(d) => d,
                             Err(p) => return Outcome::skip(format!("naga's own diagnostic rendering panics: {}", panic_message(p))),
                         };
